@@ -8,38 +8,7 @@ Run as `lake env lean --run Driver.lean`.
 import FFVerif.Model.Numeric
 import FFVerif.Model.All
 
-open FFVerif FFVerif.Model
-
-def parseFloats (s : String) : Array Float :=
-  if s == "-" || s.isEmpty then #[] else
-  (s.splitOn ",").toArray.map fun t => Float.ofBits (t.toNat!).toUInt64
-
-def showFloats (a : Array Float) : String :=
-  ",".intercalate (a.toList.map fun x => toString x.toBits.toNat)
-
-def showBools (a : Array Bool) : String :=
-  String.ofList (a.toList.map fun b => if b then '1' else '0')
-
-/-- real tensors from flat row-major data -/
-def vecR (a : Array Float) (off n : Nat) : Vec Float n := Vector.ofFn fun i => a[off + i.1]!
-def matR (a : Array Float) (off m n : Nat) : Mat Float m n :=
-  Vector.ofFn fun i => vecR a (off + i.1 * n) n
-def cAt (a : Array Float) (i : Nat) : CF := ⟨a[2*i]!, a[2*i+1]!⟩
-def vecC (a : Array Float) (off n : Nat) : Vec CF n := Vector.ofFn fun i => cAt a (off + i.1)
-def matC (a : Array Float) (off m n : Nat) : Mat CF m n :=
-  Vector.ofFn fun i => vecC a (off + i.1 * n) n
-def ten3C (a : Array Float) (off p m n : Nat) : Ten3 CF p m n :=
-  Vector.ofFn fun i => matC a (off + i.1 * m * n) m n
-
-def flatC1 {n} (v : Vec CF n) : Array Float := v.toArray.foldl (fun acc z => (acc.push z.re).push z.im) #[]
-def flatC2 {m n} (v : Mat CF m n) : Array Float := v.toArray.foldl (fun acc r => acc ++ flatC1 r) #[]
-def flatC3 {p m n} (v : Ten3 CF p m n) : Array Float := v.toArray.foldl (fun acc r => acc ++ flatC2 r) #[]
-def flatC4 {q p m n} (v : Ten4 CF q p m n) : Array Float := v.toArray.foldl (fun acc r => acc ++ flatC3 r) #[]
-def flatC5 {r q p m n} (v : Vector (Ten4 CF q p m n) r) : Array Float :=
-  v.toArray.foldl (fun acc r => acc ++ flatC4 r) #[]
-
-def maskKindOf (s : String) : MaskKind :=
-  if s == "absGt" then .absGt else if s == "neZero" then .neZero else .absTimesDtGt
+open FFVerif FFVerif.Model FFVerif.Proto
 
 def handle (line : String) : String :=
   match line.trimAscii.toString.splitOn " " with
